@@ -541,6 +541,25 @@ theorem unzip_overflow_rejected :
     zipAccountI [4611686018427387904, 4611686018427387904] 0 9223372036854775807 = false := by
   decide +kernel
 
+/-- clause "allocate out of proportion": `readFile` reserves `make([]byte, 0, declaredSize)` per entry — in an
+accepted package every declared size is itself within `UnzipSizeLimit` -/
+theorem zip_entry_alloc_bounded (sizes : List Nat) (limit xmlLimit : Nat) (hx : xmlLimit ≤ limit)
+    (h : openLimits sizes limit xmlLimit = .ok ()) : ∀ s ∈ sizes, s ≤ limit := by
+  have hs := (unzip_limit_exact sizes limit xmlLimit hx).mp h
+  intro s hm
+  have := mem_le_sum sizes s hm
+  omega
+
+/-- the append loop of `checkSheetR0` (`for c := columns; c < col; c++ { append(…, xlsxC{}) }`) makes a row
+exactly `col` cells wide when it was narrower and leaves it alone otherwise; `col` comes from
+`CellNameToCoordinates`, so a row never grows beyond MaxColumns by padding -/
+theorem pad_width_bounded (cells : List Cell) (col : Int) (hc : col ≤ (Facts.MaxColumns : Int)) :
+    (padTo cells col.toNat).length ≤ Facts.MaxColumns ∨ (padTo cells col.toNat).length = cells.length := by
+  rw [padTo_length_le]
+  split
+  · left; omega
+  · right; rfl
+
 /-! ## non-vacuity -/
 
 /-- the hypotheses are satisfiable and the guards do reject: unordered cells (Z1, C1, D1) load
